@@ -76,6 +76,14 @@ def parseOp (tok : String) : Option Op :=
   | ["HR", c, as] => some (.removeHosts c (splitList "," as))
   | ["CR", ns] => some (.removeClusters (splitList "," ns))
   | "XE" :: rest => (parseAssigns rest).map (fun a => .xdsEndpoints a)
+  | ["LA", n, addr, chains, sf, nf, idle, keep, tls] => do
+    let ch ← chains.toNat?
+    let nf ← nf.toNat?
+    let idle ← idle.toNat?
+    let keep ← keep.toNat?
+    let t ← if tls == "T1" then some true else if tls == "T0" then some false else none
+    pure (.addOrUpdateListener ⟨unName n, addr, ch, if sf == "-" then [] else sf.splitOn "+", nf, idle, keep, t⟩)
+  | ["LD", n] => some (.deleteListener n)
   | _ => none
 
 def okTok (b : Bool) : String := if b then "ok" else "err"
@@ -100,6 +108,20 @@ def parseClusterObs (s : String) : Option (Option LiveCluster) :=
     pure (some ⟨t, hosts⟩)
   | _ => none
 
+def parseListenerObs (s : String) : Option (Option LiveListener) :=
+  if s == "absent" then some none else
+  let sfs (x : String) : List String := if x == "-" then [] else x.splitOn "+"
+  match s.splitOn "|" with
+  | [addr, sf, nf, idle, csf, cnf, cidle, keep] => do
+    let nf ← nf.toNat?
+    let idle ← idle.toNat?
+    let cnf ← cnf.toNat?
+    let cidle ← cidle.toNat?
+    let keep ← keep.toNat?
+    -- name, chains and tlsOk of the config are not observed: filled with the values every stored config has
+    pure (some ⟨⟨"", addr, 1, sfs csf, cnf, cidle, keep, true⟩, sfs sf, nf, idle⟩)
+  | _ => none
+
 def renderObs (names : List String) (obs : List String) : String :=
   if names.isEmpty then "-" else joinWith ";" ((names.zip obs).map (fun p => p.1 ++ "@" ++ p.2))
 
@@ -107,33 +129,38 @@ def hist (opToks impl : List String) : String :=
   -- an update operation that panics is a violation outright (the model has no such outcome)
   if (impl.head?.getD "").splitOn "," |>.contains "panic" then "D V operation-panicked" else
   match opToks.mapM parseOp, impl with
-  | some ops, [res, lr, br, lc, bc] =>
-    match parseResults res, parseObs lr, parseObs br, parseObs lc, parseObs bc with
-    | some ires, some ilr, some ibr, some ilc, some ibc =>
+  | some ops, [res, lr, br, lc, bc, ll, bl] =>
+    match parseResults res, parseObs lr, parseObs br, parseObs lc, parseObs bc, parseObs ll, parseObs bl with
+    | some ires, some ilr, some ibr, some ilc, some ibc, some ill, some ibl =>
       let rnames := sortStrings (dedup (ops.flatMap routerNames))
       let cnames := sortStrings (dedup (ops.flatMap clusterNames))
+      let lnames := sortStrings (dedup (ops.flatMap listenerNames))
       let s := run stdOracle ops
       let mres := results stdOracle init ops
-      let mob := observe stdOracle rnames cnames mres s
+      let mob := observe stdOracle rnames cnames lnames mres s
       -- model output in the harness' format
       let mLR := renderObs rnames mob.liveR
       let mBR := renderObs rnames mob.rebR
       let mLC := renderObs cnames (mob.liveC.map renderCluster)
       let mBC := renderObs cnames (mob.rebC.map renderCluster)
+      let mLL := renderObs lnames (mob.liveL.map renderListener)
+      let mBL := renderObs lnames (mob.rebL.map renderListener)
       let mRes := if mres.isEmpty then "-" else joinWith "," (mres.map okTok)
-      let agree := res == mRes && lr == mLR && br == mBR && lc == mLC && bc == mBC
+      let agree := res == mRes && lr == mLR && br == mBR && lc == mLC && bc == mBC && ll == mLL && bl == mBL
       -- the implementation's observation, for the property predicate
-      match (ilc.mapM (fun p => parseClusterObs p.2)), (ibc.mapM (fun p => parseClusterObs p.2)) with
-      | some ilcs, some ibcs =>
-        let iob : Observation := ⟨ires, ilr.map (·.2), ibr.map (·.2), ilcs, ibcs⟩
-        let namesOk := ilr.map (·.1) == ibr.map (·.1) && ilc.map (·.1) == ibc.map (·.1) && ires.length == ops.length
+      match (ilc.mapM (fun p => parseClusterObs p.2)), (ibc.mapM (fun p => parseClusterObs p.2)),
+            (ill.mapM (fun p => parseListenerObs p.2)), (ibl.mapM (fun p => parseListenerObs p.2)) with
+      | some ilcs, some ibcs, some ills, some ibls =>
+        let iob : Observation := ⟨ires, ilr.map (·.2), ibr.map (·.2), ilcs, ibcs, ills, ibls⟩
+        let namesOk := ilr.map (·.1) == ibr.map (·.1) && ilc.map (·.1) == ibc.map (·.1) && ill.map (·.1) == ibl.map (·.1) &&
+          ires.length == ops.length
         let last : Option (Op × Bool) := match ops.getLast?, ires.getLast? with
           | some op, some ok => some (op, ok)
           | _, _ => none
-        let spec := namesOk && Spec.holds last (ilc.map (·.1)) iob
-        s!"{if agree then "A" else "D"} {if spec then "S" else "V"} {mRes} {mLR} {mBR} {mLC} {mBC}"
-      | _, _ => "E E bad-cluster-observation"
-    | _, _, _, _, _ => "E E bad-impl-output"
+        let spec := namesOk && Spec.holds last (ilc.map (·.1)) (ill.map (·.1)) iob
+        s!"{if agree then "A" else "D"} {if spec then "S" else "V"} {mRes} {mLR} {mBR} {mLC} {mBC} {mLL} {mBL}"
+      | _, _, _, _ => "E E bad-cluster-or-listener-observation"
+    | _, _, _, _, _, _, _ => "E E bad-impl-output"
   | _, _ => "E E bad-case"
 
 def run (caseToks impl : List String) : String :=
